@@ -100,7 +100,11 @@ pub fn gen_value(src: &mut Src, ty: NType) -> NValue {
 
 /// Families built directly (custom-collector style).
 pub fn gen_custom(src: &mut Src, o: &GenOpts) -> Vec<NFamily> {
-    let nf = src.below(o.max_families + 1);
+    let mut nf = src.below(o.max_families + 1);
+    if nf == o.max_families && src.chance(30) {
+        // occasionally many families in one exposition
+        nf += src.below(60);
+    }
     let mut out = vec![];
     for _ in 0..nf {
         let name = src.pick(METRIC_NAMES).to_string();
